@@ -3,6 +3,7 @@
 int vh_ntok;
 char *vh_tok[VH_MAXTOK];
 int vh_cb_errors, vh_cb_warnings, vh_cb_last_category;
+char vh_cb_last_msg[600];
 int vh_in_lib;
 long vh_alloc_calls, vh_fault_at, vh_fault_fired;
 
@@ -117,6 +118,7 @@ void vh_error_fn(const char *message, void *arg, vnaerr_category_t category)
     else
 	++vh_cb_errors;
     vh_cb_last_category = category;
+    snprintf(vh_cb_last_msg, sizeof(vh_cb_last_msg), "%s", message);
     if (getenv("VH_VERBOSE") != NULL)
 	fprintf(stderr, "vh: callback[%d]: %s\n", (int)category, message);
 }
@@ -149,6 +151,13 @@ int main(int argc, char **argv)
 	    continue;
 	}
 	if (vh_tok[0][0] == '#') {	/* comment line: echoed by neither side */
+	    continue;
+	}
+	if (strcmp(vh_tok[0], "errmsg") == 0) {		/* the last message passed to the error callback */
+	    printf("ok x");
+	    for (const char *m = vh_cb_last_msg; *m; ++m) printf("%02x", (unsigned char)*m);
+	    puts("");
+	    fflush(stdout);
 	    continue;
 	}
 	if (strcmp(vh_tok[0], "fault") == 0 && vh_ntok == 2) {	/* fail the k-th allocation of the next operation */
